@@ -192,7 +192,7 @@ class Builder:
                 return Seq([self.expr(x, depth) for x in a.elts])
             if isinstance(a, (ast.GeneratorExp, ast.ListComp)) and len(a.generators) == 1 and not a.generators[0].ifs:
                 g = a.generators[0]
-                cnt, rng = _range_count(g.iter)
+                cnt, rng = _range_count(expand(fn, g.iter))
                 return Rep(cnt, self.expr(a.elt, depth), var=norm(g.target), rng=rng, it=norm(g.iter))
             if isinstance(a, ast.IfExp):
                 def j(x):
@@ -201,6 +201,9 @@ class Builder:
             if isinstance(a, (ast.JoinedStr, ast.Constant)):
                 return self.expr(a, depth)      # "".join(<str>) == the string itself
             return Sym(norm(e), e)
+        if isinstance(e, ast.Call) and isinstance(e.func, ast.Name) and e.func.id == "str" and len(e.args) == 1 and not e.keywords:
+            inner = self.expr(e.args[0], depth)
+            return inner if isinstance(inner, (Sym, Seq, Lit)) else Sym(norm(e.args[0]), e)
         if isinstance(e, ast.Name):
             if depth > 0:
                 d = definition(fn, e.id, e if hasattr(e, "_p") else None, allow_calls=True)
@@ -254,7 +257,7 @@ class Builder:
                 return EMPTY
             body = self.block(s.body, W, stop)
             if isinstance(s, ast.For):
-                cnt, rng = _range_count(s.iter)
+                cnt, rng = _range_count(expand(self.fn, s.iter))
                 return Rep(cnt, body, var=norm(s.target), rng=rng, it=norm(s.iter))
             return Rep(None, body, it=f"while {norm(s.test)}")
         if isinstance(s, ast.If):
